@@ -70,6 +70,8 @@ type E7Spec struct {
 	TextIdentity  []TextIdentitySpec `json:"text_identity"`
 	GrownRanged   []FuncRuleSpec     `json:"grown_while_ranged"`
 	AppendOnly    []AppendOnlySpec   `json:"append_only"`
+	PairedUndo    []FuncRuleSpec     `json:"paired_undo"`
+	Handled       []HandledSpec      `json:"handled_means_filed"`
 }
 
 type FuncRuleSpec struct {
@@ -261,6 +263,12 @@ func runE7(p *Program, sp *Spec, c *Collector) {
 	}
 	for _, ao := range t.AppendOnly {
 		runAppendOnly(p, c, ao)
+	}
+	for _, pu := range t.PairedUndo {
+		runPairedUndo(p, c, pu)
+	}
+	for _, h := range t.Handled {
+		runHandledMeansFiled(p, c, h)
 	}
 	for _, n := range t.NoExit {
 		runNoExit(p, sp, c, n)
@@ -2392,7 +2400,7 @@ func runDottedSuffix(p *Program, c *Collector, a FuncRuleSpec) {
 			in   ssa.Instruction
 			name string
 		}
-		var fuzzy, exact []site
+		var fuzzy, exact, imported []site
 		for _, b := range fn.Blocks {
 			for _, in := range b.Instrs {
 				switch x := in.(type) {
@@ -2413,6 +2421,12 @@ func runDottedSuffix(p *Program, c *Collector, a FuncRuleSpec) {
 						}
 					}
 					if exempt {
+						suf := sf.val(x.Call.Args[1])
+						if suf.Op == "bin" && suf.Name == "+" && len(suf.Kids) == 2 {
+							if str, isC := symStr(suf.Kids[0]); isC && str == "." {
+								imported = append(imported, site{in, suf.Kids[1].String()})
+							}
+						}
 						continue
 					}
 					suf := sf.val(x.Call.Args[1])
@@ -2432,6 +2446,19 @@ func runDottedSuffix(p *Program, c *Collector, a FuncRuleSpec) {
 							exact = append(exact, site{in, k.Kids[1].String()})
 						}
 					}
+				}
+			}
+		}
+		// the file's explicit imports come before the own package: `import a.b.Entity` shadows an Entity declared next door
+		// (JLS 6.4.1), so the lookup <current package>.X may not be the first to answer for a name the imports also answer for
+		for _, e := range exact {
+			for _, m := range imported {
+				if !strings.Contains(m.name, e.name) && !strings.Contains(e.name, m.name) {
+					continue
+				}
+				if m.in.Block() != e.in.Block() && reaches(e.in.Block(), m.in.Block()) && !reaches(m.in.Block(), e.in.Block()) {
+					c.Ob(a.Props, "E7.exact-before-fuzzy", "importfirst:"+p.FuncKey(fn), Violated, a.What+": "+shortFn(p.FuncKey(fn))+" looks the name up in the current package ("+p.InstrPos(e.in)+") before it looks at the file's imports ("+p.InstrPos(m.in)+"): a single-type import shadows a class of the own package with the same name, not the other way round", p.InstrPos(e.in), false)
+					goto next
 				}
 			}
 		}
@@ -3443,6 +3470,41 @@ func runScannerLimit(p *Program, c *Collector, a FuncRuleSpec) {
 // in-place filter: `out := xs[:0]; for … { out = append(out, x) }` re-uses the backing array of xs. When xs is not the function's
 // own (it is a parameter, a field of the receiver, a package variable), the kept elements overwrite the head of the caller's
 // list: whoever still holds xs sees some elements twice and others not at all.
+// returnsStoredList: every return of fn hands out a field of one of its parameters (a getter), not a list made by fn.
+func returnsStoredList(fn *ssa.Function) bool {
+	if len(fn.Blocks) == 0 {
+		return false
+	}
+	n := 0
+	for _, b := range fn.Blocks {
+		for _, in := range b.Instrs {
+			ret, ok := in.(*ssa.Return)
+			if !ok || len(ret.Results) != 1 {
+				continue
+			}
+			n++
+			v := ret.Results[0]
+			stored := false
+			switch x := v.(type) {
+			case *ssa.UnOp:
+				if fa, ok := x.X.(*ssa.FieldAddr); ok {
+					if _, isPrm := fa.X.(*ssa.Parameter); isPrm {
+						stored = true
+					}
+				}
+			case *ssa.Field:
+				if _, isPrm := x.X.(*ssa.Parameter); isPrm {
+					stored = true
+				}
+			}
+			if !stored {
+				return false
+			}
+		}
+	}
+	return n > 0
+}
+
 func runInPlaceFilter(p *Program, c *Collector, a FuncRuleSpec) {
 	for _, fn := range expandFuncs(p, c, a.Funcs, a.Props...) {
 		var bad ssa.Instruction
@@ -3478,6 +3540,8 @@ func runInPlaceFilter(p *Program, c *Collector, a FuncRuleSpec) {
 					case *ssa.Call:
 						if bi, ok := x.Call.Value.(*ssa.Builtin); ok && bi.Name() == "append" {
 							origin(x.Call.Args[0], d+1)
+						} else if callee := x.Call.StaticCallee(); callee != nil && returnsStoredList(callee) {
+							// a getter: the list it hands out is the one its receiver keeps
 						} else {
 							own = true // a fresh result of some call
 						}
